@@ -85,6 +85,7 @@ Definition dispatch (kind : string) (args : list string) : string :=
     match args with
     | [w] => if String.eqb w "writers" then out3 (join ";" writers_expected) "-" "-"
              else if String.eqb w "consts" then out3 consts_expected "-" "-"
+             else if String.eqb w "observed" then out3 "unobserved=" "-" "-"   (* every written field is in the dumps *)
              else if String.eqb w "clocks" then out3 (join ";" clocks_expected) "-" "-" else BADARGS
     | _ => BADARGS
     end
